@@ -20,7 +20,7 @@ INFO = {
     'rule': 'one case = one event history from the booted running state; non-trivial = a reload was triggered or the drain check was evaluated',
     'functions': ['pl.state.FSM.set_submit_info', 'FSM.submit_crossroads', 'FSM.wait_for_crew/doing/todo/nothing', 'FSM.is_crew_done/is_doing_done/is_todo_done', 'FSM.waiting_on_*', 'FSM.reset',
                   'tools.submit.Priority.max', 'fe.submit.Defer.__call__/Process.step_1/step_3/failure', 'fe.api.cmd_reset', 'pl.farm.dispatch (archive branch)'],
-    'bounds': {'quick': 'histories of <=4 events from the running state (14 event kinds), then drain; a directed family of 7-event histories (work queued, two submissions of any priorities, settle = a whole reload cycle, 3 free events) across reload cycles', 'thorough': '<=6 free events; directed family with 8 events'},
+    'bounds': {'quick': 'histories of <=4 events from the running state (14 event kinds), then drain; a directed family of 7-event histories (work queued, two submissions of any priorities, settle = a whole reload cycle, 3 free events) across reload cycles', 'thorough': '<=5 free events; directed family with 8 events'},
     'assumptions': [
         'FsmWorld fakes (see C10): background steps and pollers complete when scheduled; a poller whose condition does not hold stays pending',
         'work abstraction: three independent flags - queue non-empty, something executing (needs the queue), a worker busy - toggled by events (farm._busy / schedule.que set accordingly)',
@@ -33,7 +33,7 @@ INFO = {
 def obligations(tier):
     out = []
     n = len(fsm.EVENTS)
-    cfgs = [('running', 4)] if tier == 'quick' else [('running', 6)]
+    cfgs = [('running', 4)] if tier == 'quick' else [('running', 5)]
     for start, k in cfgs:
         fix = 1 if k <= 4 else 2
         free = [f'e{i}' for i in range(fix, k)]
